@@ -69,7 +69,11 @@ class _mpf(mpnumeric):
             if len(val) == 4:
                 sign, man, exp, bc = val
                 v = new(cls)
-                v._mpf_ = normalize(sign, MPZ(man), exp, bc, prec, rounding)
+                if (not man) and exp:
+                    # inf or nan
+                    v._mpf_ = val
+                else:
+                    v._mpf_ = normalize(sign, MPZ(man), exp, bc, prec, rounding)
                 return v
             raise ValueError
         else:
